@@ -21,6 +21,10 @@ var (
 // n successful Put calls on c. It returns a boolean indicating
 // whether n slots were made available.
 func Free(n int, c Cache) bool {
+	if c, ok := c.(interface{ free(int) bool }); ok {
+		// The provided caches free the slots in one step.
+		return c.free(n)
+	}
 	empty := c.Cap() - c.Len()
 	if n <= empty {
 		return true
@@ -127,6 +131,17 @@ func (c *LRU) Drop(n int) {
 	c.mu.Lock()
 	c.drop(n)
 	c.mu.Unlock()
+}
+
+// free drops as many blocks as needed to leave n free slots and
+// returns whether there are n free slots, under a single lock.
+func (c *LRU) free(n int) bool {
+	c.mu.Lock()
+	defer c.mu.Unlock()
+	if empty := c.cap - len(c.table); n > empty {
+		c.drop(n - empty)
+	}
+	return c.cap-len(c.table) >= n
 }
 
 func (c *LRU) drop(n int) {
@@ -251,6 +266,17 @@ func (c *FIFO) Drop(n int) {
 	c.mu.Unlock()
 }
 
+// free drops as many blocks as needed to leave n free slots and
+// returns whether there are n free slots, under a single lock.
+func (c *FIFO) free(n int) bool {
+	c.mu.Lock()
+	defer c.mu.Unlock()
+	if empty := c.cap - len(c.table); n > empty {
+		c.drop(n - empty)
+	}
+	return c.cap-len(c.table) >= n
+}
+
 func (c *FIFO) drop(n int) {
 	for ; n > 0 && len(c.table) > 0; n-- {
 		remove(c.root.prev, c.table)
@@ -369,6 +395,17 @@ func (c *Random) Drop(n int) {
 	c.mu.Lock()
 	c.drop(n)
 	c.mu.Unlock()
+}
+
+// free drops as many blocks as needed to leave n free slots and
+// returns whether there are n free slots, under a single lock.
+func (c *Random) free(n int) bool {
+	c.mu.Lock()
+	defer c.mu.Unlock()
+	if empty := c.cap - len(c.table); n > empty {
+		c.drop(n - empty)
+	}
+	return c.cap-len(c.table) >= n
 }
 
 func (c *Random) drop(n int) {
